@@ -74,6 +74,8 @@ func reentScenario(c reCell) (Scenario, Step) {
 			inner = Step{Op: "ForceFlush", Ctx: live}
 		case "Shutdown":
 			inner = Step{Op: "Shutdown", Ctx: live}
+		case "StartEnd": // telemetry-producing: a span started and ended through the tracer obtained at construction
+			inner = Step{Op: "StartEnd", Via: "old"}
 		}
 	case "log":
 		sc = Scenario{Prov: "log", Kinds: map[string]string{"q1": c.Kind, "q2": "rec"}, Init: []string{"q1", "q2"}}
@@ -81,7 +83,8 @@ func reentScenario(c reCell) (Scenario, Step) {
 			"Emit": {Op: "Emit", Via: "old"}}[c.Trigger]
 		sc.Procs = []Proc{{Name: "d", Steps: []Step{{Op: "Emit", Via: "old"}, trig, {Op: "ForceFlush", Ctx: live},
 			{Op: "Shutdown", Ctx: live}, {Op: "Get"}, {Op: "Emit", Via: "new"}, {Op: "Shutdown", Ctx: live}}}}
-		inner = map[string]Step{"Get": {Op: "Get"}, "ForceFlush": {Op: "ForceFlush", Ctx: live}, "Shutdown": {Op: "Shutdown", Ctx: live}}[c.Call]
+		inner = map[string]Step{"Get": {Op: "Get"}, "ForceFlush": {Op: "ForceFlush", Ctx: live}, "Shutdown": {Op: "Shutdown", Ctx: live},
+			"Emit": {Op: "Emit", Via: "old"}}[c.Call]
 	case "metric":
 		sc = Scenario{Prov: "metric", Kinds: map[string]string{"r1": c.Kind, "r2": "manual"}, Init: []string{"r1", "r2"}}
 		trig := map[string]Step{"Shutdown": {Op: "Shutdown", Ctx: live}, "ForceFlush": {Op: "ForceFlush", Ctx: live},
@@ -89,7 +92,7 @@ func reentScenario(c reCell) (Scenario, Step) {
 		sc.Procs = []Proc{{Name: "d", Steps: []Step{{Op: "Add", Via: "old"}, trig, {Op: "ForceFlush", Ctx: live},
 			{Op: "Shutdown", Ctx: live}, {Op: "Get"}, {Op: "Add", Via: "new"}, {Op: "Shutdown", Ctx: live}}}}
 		inner = map[string]Step{"Get": {Op: "Get"}, "ForceFlush": {Op: "ForceFlush", Ctx: live}, "Shutdown": {Op: "Shutdown", Ctx: live},
-			"Collect": {Op: "Collect", C: "r2"}}[c.Call]
+			"Collect": {Op: "Collect", C: "r2"}, "Add": {Op: "Add", Via: "old"}}[c.Call]
 	}
 	sc.Name = c.name()
 	return sc, inner
